@@ -35,7 +35,7 @@ ASSUMPTIONS = [
     "probe bodies are deterministic; one-shot iterators are never placed directly under a cache",
     "reference interpreter used as cross-check only (disagreements are counted, reported under C05)",
 ]
-FLOORS = {"hits_compared": (400, 8000), "steps": (1500, 30000), "histories_with_hit_and_change": (80, 1500), "hostile_steps": (1200, 24000)}
+FLOORS = {"hits_compared": (400, 8000), "steps": (1500, 30000), "histories_with_hit_and_change": (80, 1500), "hostile_steps": (1200, 24000), "scalar_under_preset_section_steps": (14, 14)}
 COVER = {"kinds_under_cache_with_hits": ["opt", "switch", "case", "coalesce", "bind", "map", "tmpl", "with", "apply", "list", "ds"]}
 SHARDS_QUICK = 4
 # domains only in the directed families: an out-of-domain value inside a bind/case dispatch of a skipped
@@ -199,10 +199,36 @@ def known_finding_reproducers(ctx):
                       {"mechanism": "unconsumed-lazy-argument-keyed-eagerly" if not ok else None, "options": o})
 
 
+def scalar_under_preset_section(ctx):
+    """A derivative whose pre-set options hold a section, consumed by a cached dataset, with the caller holding a
+    scalar (or null) under that section name: the cached graph answers / fails exactly like the uncached one."""
+    from labrea import Option, dataset
+
+    def child_body(a=Option("S.X", "dflt"), b=Option("B", 0)):
+        return ("child", a, b)
+
+    for derive in ("with_options", "with_default_options"):
+        child = dataset(child_body)
+        derived = getattr(child, derive)({"S": {"X": 1}})
+        parent = dataset(lambda c=derived, d=Option("C", 0): ("parent", c, d))
+        for o in ({"S": 5}, {"S": None, "B": 1}, {"S": {"Y": 2}}, {}, {"S": 5, "C": 1}, {"S": "txt", "B": 2}, {"S": 5}):
+            with labrea.cache.disabled():
+                want = observe(parent.evaluate, copy.deepcopy(o))
+            got = observe(parent.evaluate, copy.deepcopy(o))
+            ks = observe(parent.keys, copy.deepcopy(o))
+            ctx.evaluations += 3
+            ctx.count("scalar_under_preset_section_steps")
+            if not same_outcome(got, want) or (ks[0] == "ok") != (want[0] == "ok"):
+                ctx.violation("warm-vs-uncached", f"{derive}({{'S': {{'X': 1}}}}) under a cached consumer on {o}: cached {short(got)} (keys {short(ks)}) but caching switched off gives {short(want)}",
+                              {"family": "scalar-under-preset-section", "derive": derive, "options": o})
+                return
+
+
 def run(ctx):
     rng = ctx.rng
     if ctx.shard == 0:
         known_finding_reproducers(ctx)
+        scalar_under_preset_section(ctx)
     dicts = directed.dictionaries()
     for i, p in enumerate(directed.programs()):
         if i % ctx.shards != ctx.shard:
@@ -234,4 +260,7 @@ def run(ctx):
 
 def replay(ctx, rep):
     w = rep["witness"]
+    if w.get("family") == "scalar-under-preset-section":
+        scalar_under_preset_section(ctx)
+        return
     run_history(ctx, w["program"], w["history"], tag="replay")
